@@ -113,6 +113,10 @@ class Agg:
                 fired["reject"] = st.parses_rej
             if st.opens_fail:
                 fired["open_failed"] = st.opens_fail
+            if st.probes.get("file_replaced_in_mid_history"):
+                fired["file_replaced"] = st.probes["file_replaced_in_mid_history"]
+            if plan.get("knobs", {}).get("storm"):
+                fired["storm_of_failures"] = 1
             for k, v in st.probes.items():
                 d["probes"][k] = d["probes"].get(k, 0) + v
             for k, v in st.census_cancel.items():
